@@ -1164,7 +1164,7 @@ func runRDFC14n(c *Ctx) *Violation {
 	}
 
 	// ---- mutants: one edge moved / one term changed ----
-	for r := 0; r < 3 && len(orig) > 0; r++ {
+	for r := 0; r < 5 && len(orig) > 0; r++ {
 		mut := make([]*rdf.Statement, len(orig))
 		for i, s := range orig {
 			mut[i] = rdfStmt(s.Subject.Value, s.Predicate.Value, s.Object.Value, s.Label.Value)
@@ -1172,7 +1172,49 @@ func runRDFC14n(c *Ctx) *Violation {
 		s := mut[t.Choose(simrt.KFault, len(mut))]
 		bl := rdfBlanks(orig)
 		how := ""
-		switch m := t.Choose(simrt.KFault, 4); {
+		switch m := t.Choose(simrt.KFault, 6); {
+		case m >= 4:
+			// the statement moves to another graph (or two statements swap
+			// graphs); half of the time a statement that involves a blank
+			// node is preferred, since only those reach the node hashes
+			if t.Choose(simrt.KFault, 2) == 1 {
+				var withBlank []*rdf.Statement
+				for _, x := range mut {
+					if rdfIsBlank(x.Subject.Value) || rdfIsBlank(x.Object.Value) {
+						withBlank = append(withBlank, x)
+					}
+				}
+				if len(withBlank) > 0 {
+					s = withBlank[t.Choose(simrt.KFault, len(withBlank))]
+				}
+			}
+			if m == 5 {
+				o := mut[t.Choose(simrt.KFault, len(mut))]
+				s.Label.Value, o.Label.Value = o.Label.Value, s.Label.Value
+				how = "graph labels of two statements swapped"
+				if !rdfIsBlank(o.Subject.Value) && !rdfIsBlank(o.Object.Value) && !rdfIsBlank(s.Subject.Value) && !rdfIsBlank(s.Object.Value) {
+					how += " (ground statements)"
+				} else if rdfIsBlank(s.Subject.Value) || rdfIsBlank(o.Subject.Value) {
+					how += " (a blank subject)"
+				} else {
+					how += " (blank objects only)"
+				}
+			} else {
+				g := rdfGraphs[t.Choose(simrt.KFault, len(rdfGraphs))]
+				if s.Label.Value == g {
+					g = ""
+				}
+				s.Label.Value = g
+				how = "graph label changed"
+				switch {
+				case rdfIsBlank(s.Subject.Value):
+					how += " (blank subject)"
+				case rdfIsBlank(s.Object.Value):
+					how += " (blank object, ground subject)"
+				default:
+					how += " (ground statement)"
+				}
+			}
 		case m == 3 && rdfIsBlank(s.Object.Value):
 			// two edges rewired: this statement and another swap their objects
 			o := mut[t.Choose(simrt.KFault, len(mut))]
@@ -1242,7 +1284,7 @@ func runRDFC14n(c *Ctx) *Violation {
 					return viol("rdf-c14n/Isomorphic"+flavour+"/isomorphic-rejected", "Isomorphic(decomp=%v) = false for two datasets that a blank node bijection maps onto each other\n%s", decomp, pair())
 				}
 				if !iso && got {
-					return viol("rdf-c14n/Isomorphic"+flavour+"/non-isomorphic-accepted", "Isomorphic(decomp=%v) = true, but none of the %d! blank node bijections maps one dataset onto the other\n%s", decomp, len(bl), pair())
+					return viol("rdf-c14n/Isomorphic"+flavour+"/non-isomorphic-accepted/"+strings.NewReplacer(" ", "-", "(", "", ")", "", ",", "").Replace(how), "Isomorphic(decomp=%v) = true, but none of the %d! blank node bijections maps one dataset onto the other\n%s", decomp, len(bl), pair())
 				}
 				return nil
 			}); v != nil {
